@@ -726,17 +726,25 @@ class Discharger:
         return True
 
     # ------------------------------------------------------------ lock regions
-    def panics_under_lock(self):
-        """undischarged panic sites that lie inside a lock region (directly, or in a callee invoked there)"""
-        if hasattr(self, "_pul"):
+    def panics_under_lock(self, async_locks=False):
+        """undischarged panic sites that lie inside a lock region (directly, or in a callee invoked there).
+        std locks by default (they poison: D9); async_locks=True looks at async_std lock regions instead (no poisoning,
+        but a panic there still unwinds through a half-done critical section)"""
+        if async_locks:
+            if hasattr(self, "_pul_async"):
+                return self._pul_async
+        elif hasattr(self, "_pul"):
             return self._pul
-        self._pul = []  # prevent recursion through D9
+        if not async_locks:
+            self._pul = []  # prevent recursion through D9
         bad = []
         for b in self.facts.bodies:
             if b.impl and b.impl.get("derived"):
                 continue
             li = self.locks.info(b)
             for a in li.acqs:
+                if a.is_async != async_locks:
+                    continue
                 for bb in a.region:
                     blk = b.blocks[bb]
                     # panic sites directly in region
@@ -755,7 +763,10 @@ class Discharger:
                                         continue
                                     if self.discharge_no_d9(s) is None:
                                         bad.append((rb, s, a))
-        self._pul = bad
+        if async_locks:
+            self._pul_async = bad
+        else:
+            self._pul = bad
         return bad
 
     def _callees_at(self, body, blk):
